@@ -95,9 +95,9 @@ CHECKS = {
     },
     "C16": {
         "module": "Vanguard.Props.C16", "namespace": "Vanguard.C16", "streams": ["pingpong", "e2e"],
-        "partial": "proved per adapter step (per-message flush leaves nothing unflushed for streaming clients; a converted message is on "
-                   "the wire when Write returns; no Read served from the message in hand touches the client's body; the exact reader never "
-                   "exceeds its message); for whole runs the progress predicates Spec.respStepOk/reqStepOk are evaluated on the "
+        "partial": "proved per adapter step and for whole Write calls of both response writers (re-encoding path: everything flushed when Write "
+                   "returns; re-framing path: everything flushed whenever the writer is between messages; no Read served from the message in hand "
+                   "touches the client's body; the exact reader never exceeds its message); for whole runs the progress predicates Spec.respStepOk/reqStepOk are evaluated on the "
                    "implementation's progress logs and a lock-step client in the harness flags the first Read that would block for ever - "
                    "checked, not proved; a real HTTP/2 connection (flow control, net/http's own buffering) is replaced by a recorder whose "
                    "Flush offsets define what the client has received",
